@@ -83,6 +83,31 @@ const DEFAULT_FUNCS: &[(&str, &'static RsCelFunction)] = &[
     ("uomConvert", &uom::uom_convert),
 ];
 
+/// Names for the built-in implementations, for the external verification harness.
+#[cfg(feature = "verif_hooks")]
+pub mod verif_funcs {
+    use crate::CelValue;
+
+    pub use super::math::{
+        abs::abs, ceil::ceil, floor::floor, lg::lg, log::log, pow::pow, round::round, sqrt::sqrt,
+    };
+    pub use super::size::size;
+    pub use super::sort::sort;
+    pub use super::string::split::split_at;
+    pub use super::time_funcs::{
+        get_hours::get_hours, get_milliseconds::get_milliseconds, get_minutes::get_minutes,
+        get_seconds::get_seconds,
+    };
+
+    pub fn min(this: CelValue, args: Vec<CelValue>) -> CelValue {
+        super::min_impl(this, args)
+    }
+
+    pub fn max(this: CelValue, args: Vec<CelValue>) -> CelValue {
+        super::max_impl(this, args)
+    }
+}
+
 pub fn load_default_funcs(exec_ctx: &mut BindContext) {
     for (name, func) in DEFAULT_FUNCS.iter() {
         exec_ctx.bind_func(name, *func);
